@@ -661,6 +661,55 @@ def gen_ffi_tables(repo):
     funcs += '(* plain data: (target struct / constructor, its field / parameter, the source field that feeds it) *)\n'
     funcs += 'Definition field_forwarding : list (string * string * string) := [\n' + ';\n'.join(f'  ({coq_str(a)}, {coq_str(b_)}, {coq_str(c)})' for a, b_, c in fw) + '\n].\n\n'
 
+    # ------------------------------------------------------------------ constructors: which C argument feeds which parameter of the Rust constructor
+    def params_of(src, fname, where):
+        m = re.search(r'pub\s+(?:async\s+)?fn\s+' + fname + r'\s*(<[^>(]*>)?\s*\(', src)
+        if not m:
+            raise ParseError(f'{where}: fn {fname} not found')
+        close = matching(src, m.end() - 1, '(', ')')
+        return [x.split(':', 1)[0].strip() for x in rp.split_top(src[m.end():close - 1]) if x.strip()]
+
+    def body_of(src, header_re, where):
+        m = re.search(header_re, src)
+        if not m:
+            raise ParseError(where + ': not found')
+        pclose = matching(src, m.end() - 1, '(', ')')
+        bopen = src.find('{', pclose)
+        return src[bopen + 1:matching(src, bopen, '{', '}') - 1]
+    r_client_mod = R('rodbus/src/client/mod.rs')
+    r_server_mod = R('rodbus/src/server/mod.rs')
+    plumbing = []
+    ctor_fns = [(fclient, 'client.rs', r'pub\(crate\)\s+unsafe\s+fn\s+client_channel_create_tcp\s*\(', 'client_channel_create_tcp', None),
+                (fclient, 'client.rs', r'#\[cfg\(feature\s*=\s*"serial"\)\]\s*pub\(crate\)\s+unsafe\s+fn\s+client_channel_create_rtu\s*\(', 'client_channel_create_rtu', None),
+                (fclient, 'client.rs', r'#\[cfg\(feature\s*=\s*"enable-tls"\)\]\s*pub\(crate\)\s+unsafe\s+fn\s+client_channel_create_tls\s*\(', 'client_channel_create_tls', None),
+                (fserver, 'server.rs', r'pub\(crate\)\s+unsafe\s+fn\s+server_create_tcp\s*\(', 'server_create_tcp', None),
+                (fserver, 'server.rs', r'#\[cfg\(feature\s*=\s*"serial"\)\]\s*pub\(crate\)\s+unsafe\s+fn\s+server_create_rtu\s*\(', 'server_create_rtu', None),
+                (fserver, 'server.rs', r'#\[cfg\(feature\s*=\s*"enable-tls"\)\]\s*#\[allow\(clippy::too_many_arguments\)\]\s*pub\(crate\)\s+unsafe\s+fn\s+server_create_tls_impl\s*\(', 'server_create_tls_impl', None)]
+    for src_text, where, hdr, fname, _ in ctor_fns:
+        body = body_of(src_text, hdr, f'{where} {fname}')
+        lets = {}
+        for lm in re.finditer(r'\blet\s+(\w+)\s*(?::[^=;]+)?=\s*([^;]+);', body):
+            rhs = ''.join(lm.group(2).split())
+            if len(rhs) <= 48:
+                lets[lm.group(1)] = rhs
+        found = 0
+        for cm in re.finditer(r'rodbus::(client|server)::(spawn_\w+)\s*\(', body):
+            close = matching(body, cm.end() - 1, '(', ')')
+            args = [''.join(a.split()) for a in rp.split_top(body[cm.end():close - 1])]
+            names = params_of(r_client_mod if cm.group(1) == 'client' else r_server_mod, cm.group(2), f'rodbus {cm.group(1)}/mod.rs')
+            if len(names) != len(args):
+                raise ParseError(f'{where} {fname}: {cm.group(2)} called with {len(args)} arguments, declared with {len(names)}')
+            for pn, a in zip(names, args):
+                # a plain local bound by a short `let` is shown with its definition
+                shown = lets.get(a, a) if re.fullmatch(r'\w+', a) and lets.get(a, a) != a + '.as_ref().ok_or(ffi::ParamError::NullParameter)?' else a
+                plumbing.append((fname, cm.group(2), pn, shown))
+            found += 1
+        if found == 0:
+            raise ParseError(f'{where} {fname}: no rodbus::client/server::spawn_* call')
+    funcs += '(* the C-ABI constructors: (C function, Rust constructor it calls, parameter of that constructor, the argument expression\n   with whitespace removed; a local bound by a short `let` is replaced by its definition) *)\n'
+    funcs += 'Definition ctor_plumbing : list (string * string * string * string) := [\n' + ';\n'.join(
+        f'  ({coq_str(a)}, {coq_str(b)}, {coq_str(c)}, "{d.replace(chr(34), chr(34) * 2)}")' for a, b, c, d in plumbing) + '\n].\n\n'
+
     out = 'Local Open Scope string_scope.\n\n' + en.render() + funcs
     out += '(* every conversion table: (Coq function, source enum, target enum) *)\n'
     out += 'Definition conversion_tables : list string := [' + '; '.join(coq_str(t[0]) for t in tables) + '].\n'
